@@ -1,72 +1,105 @@
 (* C05 - Password-protected screens let in exactly the clients that prove the password.
-   Only property theorems here, each closed by [exact] of a lemma proved in Auth/*Proofs.v.
-   The model (Auth/AuthModel.v) is parametrised by [cfg]: [cfg_fixed] mirrors the code with
-   notes/fix_C05_1.diff + notes/fix_C05_2.diff (what the correspondence run executes),
-   [cfg_legacy] the code before the fixes. *)
+   Only property theorems here, each closed by [exact] of a lemma proved in Auth/*.v.
+   The model (Auth/AuthModel.v) is parametrised by [cfg].  The baseline is
+     cfgF single ext = the code with the committed fixes 39c3ee3 (global handler list) and fa69878
+     (weak DES keys), for BOTH variants of rfbUnregisterSecurityHandler (single = false: /repo HEAD,
+     recursion on ->next; single = true: notes/fix_C05_3.diff) and ARBITRARY security types [ext] of
+     the four application handler objects (the TightVNC type 16 included);
+   cfg_legacy (the code before the fixes) only serves as regression witness (the *_refuted theorems). *)
 From Coq Require Import NArith ZArith List Bool.
-From LV Require Import Auth.Des Auth.DesProofs Auth.AuthModel Auth.AuthProofs Gen.Consts_C05.
+From LV Require Import Auth.Des Auth.DesProofs Auth.AuthModel Auth.HandlerSweep Auth.AuthProofs Auth.AuthWitness
+  Gen.Consts_C05.
 Import ListNotations.
 
-(* ---- soundness: every interleaved trace, every screen / handler / connection configuration *)
-Theorem C05_sound : forall ops c s,
-  let p := run cfg_fixed proc_init ops in
+(* ---- soundness: every interleaved trace; any screens (password list, password file that may be
+   rewritten at any time, none), application (un)registrations of handlers of any type, inbound and
+   reverse connections, any client bytes; both list-handling variants.  [proved c]: the response
+   read from the client is the DES encryption of the challenge sent to it under a password that
+   was configured on its screen at the moment of the check (ghost c_pws, see C05_password_snapshot). *)
+Theorem C05_sound : forall single ext ops c s,
+  let p := run (cfgF single ext) proc_init ops in
   In c (p_conns p) -> nth_error (p_screens p) (c_screen c) = Some s ->
-  protected s c = true -> granted c = true -> proved s c.
+  protected s c = true -> granted c = true -> proved c.
 Proof. exact sound_fixed. Qed.
 
-(* ---- completeness under arbitrary activity of other connections / screens (no application handlers) *)
-Theorem C05_complete : forall p0 s scr pw ver mi tr1 tr2 tr3 b,
-  bstore (p_hs p0) -> nth_error (p_screens p0) s = Some scr -> has_password scr = true ->
+(* the password set recorded for a connection is the one of its screen when the response is handled *)
+Theorem C05_password_snapshot : forall cf s e c resp e' c',
+  on_response cf s e c resp = (e', c') -> c_pws c' = screen_passwords s /\ c_resp c' = Some resp.
+Proof. exact on_response_snapshot. Qed.
+
+(* ---- completeness under arbitrary activity of other connections, screens AND of the application
+   (registering / unregistering handlers of any non-built-in type between the client's messages) *)
+Theorem C05_complete : forall single ext p0 s scr pw ver mi tr1 tr2 tr3 b,
+  acyc (p_hs p0) = true -> ext_ok ext -> nth_error (p_screens p0) s = Some scr -> has_password scr = true ->
   In pw (screen_passwords scr) ->
   length ver = 12%nat -> parse_version ver = Some (c05_rfbProtocolMajorVersion, mi) -> (7 <= mi)%Z ->
   let ci := length (p_conns p0) in
-  forallb (foreign ci) tr1 = true -> forallb (foreign ci) tr2 = true -> forallb (foreign ci) tr3 = true ->
-  let p1 := step cfg_fixed p0 (OConn s false ver false) in
-  let p2 := run cfg_fixed p1 tr1 in
+  forallb (foreign ci s) tr1 = true -> forallb (foreign ci s) tr2 = true -> forallb (foreign ci s) tr3 = true ->
+  let p1 := step (cfgF single ext) p0 (OConn s false ver false) in
+  let p2 := run (cfgF single ext) p1 tr1 in
   let ch := fst (take_rand (p_rand p2) 16) in
-  let p3 := step cfg_fixed p2 (OSend ci [zbyte c05_rfbSecTypeVncAuth] false) in
-  let p4 := run cfg_fixed p3 tr2 in
+  let p3 := step (cfgF single ext) p2 (OSend ci [zbyte c05_rfbSecTypeVncAuth] false) in
+  let p4 := run (cfgF single ext) p3 tr2 in
   forall r, vnc_encrypt pw ch = Some r ->
-  let p5 := step cfg_fixed p4 (OSend ci r false) in
-  let p6 := run cfg_fixed p5 tr3 in
-  let p7 := step cfg_fixed p6 (OSend ci [b] false) in
-  exists c, nth_error (p_conns p7) ci = Some c /\ c_st c = StNormal /\
-            c_out c = server_version ++ [1%N; zbyte c05_rfbSecTypeVncAuth] ++ ch ++ auth_ok ++ server_init scr.
+  let p5 := step (cfgF single ext) p4 (OSend ci r false) in
+  let p6 := run (cfgF single ext) p5 tr3 in
+  let p7 := step (cfgF single ext) p6 (OSend ci [b] false) in
+  exists c tl, nth_error (p_conns p7) ci = Some c /\ c_st c = StNormal /\ In c05_rfbSecTypeVncAuth tl /\
+    c_out c = server_version ++ (N.of_nat (length tl) :: map zbyte tl) ++ ch ++ auth_ok ++ server_init scr.
 Proof. exact complete_fixed. Qed.
 
-Theorem C05_complete_33 : forall p0 s scr pw ver mi tr2 tr3 b,
-  bstore (p_hs p0) -> nth_error (p_screens p0) s = Some scr -> has_password scr = true ->
+Theorem C05_complete_33 : forall single ext p0 s scr pw ver mi tr2 tr3 b,
+  acyc (p_hs p0) = true -> nth_error (p_screens p0) s = Some scr -> has_password scr = true ->
   In pw (screen_passwords scr) ->
   length ver = 12%nat -> parse_version ver = Some (c05_rfbProtocolMajorVersion, mi) -> (mi < 7)%Z ->
   let ci := length (p_conns p0) in
-  forallb (foreign ci) tr2 = true -> forallb (foreign ci) tr3 = true ->
+  forallb (foreign ci s) tr2 = true -> forallb (foreign ci s) tr3 = true ->
   let ch := fst (take_rand (p_rand p0) 16) in
-  let p3 := step cfg_fixed p0 (OConn s false ver false) in
-  let p4 := run cfg_fixed p3 tr2 in
+  let p3 := step (cfgF single ext) p0 (OConn s false ver false) in
+  let p4 := run (cfgF single ext) p3 tr2 in
   forall r, vnc_encrypt pw ch = Some r ->
-  let p5 := step cfg_fixed p4 (OSend ci r false) in
-  let p6 := run cfg_fixed p5 tr3 in
-  let p7 := step cfg_fixed p6 (OSend ci [b] false) in
+  let p5 := step (cfgF single ext) p4 (OSend ci r false) in
+  let p6 := run (cfgF single ext) p5 tr3 in
+  let p7 := step (cfgF single ext) p6 (OSend ci [b] false) in
   exists c, nth_error (p_conns p7) ci = Some c /\ c_st c = StNormal /\
             c_out c = server_version ++ be32 (Z.to_N c05_rfbSecTypeVncAuth) ++ ch ++ auth_ok ++ server_init scr.
 Proof. exact complete_fixed_33. Qed.
 
-(* the world of C05_complete is the one of every process whose application registers no handler *)
-Theorem C05_complete_world : forall cf tr p,
-  forallb no_app_op tr = true -> bstore (p_hs p) -> bstore (p_hs (run cf p tr)).
-Proof. exact run_bstore. Qed.
+(* the world of C05_complete ([acyc]) is the world of EVERY trace, any cfg: no restriction on the
+   application *)
+Theorem C05_complete_world : forall cf tr p, acyc (p_hs p) = true -> acyc (p_hs (run cf p tr)) = true.
+Proof. exact run_acyc. Qed.
 
-(* every password and every 16-byte challenge has a response (DES never fails) *)
 Theorem C05_response_defined : forall pw chal, length chal = 16%nat ->
   exists r, vnc_encrypt pw chal = Some r /\ length r = 16%nat.
 Proof. exact vnc_encrypt_some. Qed.
 
-(* ---- view-only passwords *)
-Theorem C05_viewonly : forall p ci c scr pws fvo r i,
+(* ---- the global handler list with application handlers: fuel and sanity (finite sweep over all
+   7^7 stores of six handler objects, both unregister variants; bound: four application objects) *)
+Theorem C05_list_fuel_suffices : forall single st, acyc st = true -> store_ok single st = true.
+Proof. exact acyc_store_ok. Qed.
+
+Theorem C05_offer_registers_own_type : forall single st primary, acyc st = true -> is_prim primary ->
+  exists st', offer_store single st primary = Some st' /\ acyc st' = true /\
+              hs_member LIST_FUEL st' (h_head st') (prim_id primary) = Some true.
+Proof. exact acyc_offer. Qed.
+
+Theorem C05_own_type_honoured : forall ext f st cur primary,
+  ext_ok ext -> is_prim primary -> hs_member f st cur 99 = Some false -> length (h_next st) = NHANDLERS ->
+  forall fuel, (f <= fuel)%nat ->
+  hs_find fuel (htypes ext) false st cur primary primary = Some (builtin_sel primary).
+Proof. exact hs_find_own. Qed.
+
+Theorem C05_deliver_fuel_suffices : forall extra cf p ci buf eof,
+  deliver (S (length buf) + extra) cf p ci buf eof = deliver (S (length buf)) cf p ci buf eof.
+Proof. exact deliver_fuel_suffices. Qed.
+
+(* ---- view-only passwords: any list, authPasswdFirstViewOnly at any position *)
+Theorem C05_viewonly : forall single ext p ci c scr pws fvo r i,
   nth_error (p_conns p) ci = Some c -> nth_error (p_screens p) (c_screen c) = Some scr ->
   s_pw scr = PwList pws fvo -> c_st c = StAuth -> c_vo c = false -> length r = 16%nat ->
-  check_list cfg_fixed pws (c_chal c) r 0 = Some i ->
-  let p' := step cfg_fixed p (OSend ci r false) in
+  check_list (cfgF single ext) pws (c_chal c) r 0 = Some i ->
+  let p' := step (cfgF single ext) p (OSend ci r false) in
   exists c', nth_error (p_conns p') ci = Some c' /\ c_st c' = StInit /\ c_vo c' = (fvo <=? i)%Z.
 Proof. exact viewonly_fixed. Qed.
 
@@ -88,16 +121,17 @@ Theorem C05_versions_33 : forall cf scr e c ver mi,
        c_out c' = c_out c ++ be32 (Z.to_N c05_rfbSecTypeVncAuth) ++ fst (take_rand (e_rand e) 16)).
 Proof. exact versions_33. Qed.
 
-Theorem C05_versions_37 : forall cf scr e c ver mi,
-  c_st c = StPV -> parse_version ver = Some (c05_rfbProtocolMajorVersion, mi) -> (7 <= mi)%Z -> bstore (e_hs e) ->
-  exists e' c', on_message cf scr e c ver = (e', c', false) /\ c_minor c' = mi /\ c_st c' = StSec /\
-    c_out c' = c_out c ++ [1%N; zbyte (primary_type scr c)].
+Theorem C05_versions_37 : forall single ext scr e c ver mi,
+  c_st c = StPV -> parse_version ver = Some (c05_rfbProtocolMajorVersion, mi) -> (7 <= mi)%Z ->
+  acyc (e_hs e) = true -> length ext = 4%nat ->
+  exists e' c' tl, on_message (cfgF single ext) scr e c ver = (e', c', false) /\ c_minor c' = mi /\ c_st c' = StSec /\
+    In (primary_type scr c) tl /\ c_out c' = c_out c ++ N.of_nat (length tl) :: map zbyte tl.
 Proof. exact versions_37. Qed.
 
-Theorem C05_versions_failure : forall scr e c r,
+Theorem C05_versions_failure : forall single ext scr e c r,
   c_st c = StAuth -> length (c_chal c) = 16%nat ->
   (forall pw, In pw (screen_passwords scr) -> vnc_encrypt pw (c_chal c) <> Some r) ->
-  exists c', on_message cfg_fixed scr e c r = (e, c', false) /\ c_st c' = StClosed /\
+  exists c', on_message (cfgF single ext) scr e c r = (e, c', false) /\ c_st c' = StClosed /\
     c_out c' = c_out c ++ auth_failed ++
                (if (7 <? c_minor c)%Z then be32 (N.of_nat (length reason_failed)) ++ reason_failed else []).
 Proof. exact versions_failure. Qed.
@@ -110,18 +144,17 @@ Theorem C05_versions_none : forall scr c,
   c_st c' = (if (c_minor c =? 889)%Z then StNormal else StInit) /\ co = false.
 Proof. exact versions_none. Qed.
 
-(* ---- the code before the fixes violates the property (DESIGN.md section 7 F1a, F1b) *)
-(* full statement = C05_sound with cfg_legacy; refuted: *)
+(* ---- regression witnesses: the code before 39c3ee3 / fa69878 violates the property *)
 Theorem C05_sound_global_list_refuted :
   exists ops c s, let p := run cfg_legacy proc_init ops in
     In c (p_conns p) /\ nth_error (p_screens p) (c_screen c) = Some s /\
-    protected s c = true /\ c_st c = StNormal /\ ~ proved s c.
+    protected s c = true /\ c_st c = StNormal /\ ~ proved c.
 Proof. exact sound_global_list_refuted. Qed.
 
 Theorem C05_weakkey_refuted :
   exists ops c s, let p := run cfg_legacy proc_init ops in
     In c (p_conns p) /\ nth_error (p_screens p) (c_screen c) = Some s /\
-    protected s c = true /\ c_st c = StInit /\ ~ proved s c.
+    protected s c = true /\ c_st c = StInit /\ ~ proved c.
 Proof. exact weakkey_refuted. Qed.
 
 Theorem C05_weakkey_complete_refuted :
@@ -135,7 +168,19 @@ Theorem C05_complete_interleaved_legacy_refuted :
   map c_st (p_conns (run cfg_fixed proc_init f1a_refused_trace)) = [StAuth; StSec].
 Proof. exact complete_interleaved_legacy_refuted. Qed.
 
-(* ---- reference cipher and fuel *)
+(* ---- what 39c3ee3 does not repair (application handlers; repaired by notes/fix_C05_3.diff):
+   unregistering one handler unregisters its successors; an unregistered handler is re-linked
+   through a stale ->next and advertised again *)
+Theorem C05_unregister_chain_remains :
+  offered cfg_fixed f1c_app_trace 0 = [1; 1]%N /\ offered cfg_fixed3 f1c_app_trace 0 = [2; 1; 16]%N.
+Proof. exact unregister_chain_remains. Qed.
+
+Theorem C05_stale_next_remains :
+  offered cfg_fixed f1d_app_trace 2 = [2; 16; 2]%N /\ offered cfg_fixed f1d_app_trace 1 = [1; 1]%N /\
+  offered cfg_fixed3 f1d_app_trace 2 = [1; 2]%N /\ offered cfg_fixed3 f1d_app_trace 1 = [2; 1; 16]%N.
+Proof. exact stale_next_remains. Qed.
+
+(* ---- reference cipher *)
 Theorem C05_des_known_answers :
   des_encrypt 0x133457799BBCDFF1 0x0123456789ABCDEF = Some 0x85E813540F0AB405%N /\
   des_encrypt 0x0101010101010101 0x8000000000000000 = Some 0x95F8A5E5DD31D900%N /\
@@ -144,12 +189,3 @@ Theorem C05_des_known_answers :
   des_encrypt 0x0131D9619DC1376E 0x5CD54CA83DEF57DA = Some 0x7A389D10354BD271%N /\
   des_decrypt 0x133457799BBCDFF1 0x85E813540F0AB405 = Some 0x0123456789ABCDEF%N.
 Proof. exact des_known_answers. Qed.
-
-Theorem C05_deliver_fuel_suffices : forall extra cf p ci buf eof,
-  deliver (S (length buf) + extra) cf p ci buf eof = deliver (S (length buf)) cf p ci buf eof.
-Proof. exact deliver_fuel_suffices. Qed.
-
-Theorem C05_list_fuel_suffices_builtin : forall st primary, bstore st -> is_prim primary ->
-  exists st', offer_store st primary = Some st' /\ bstore st' /\
-              forall legacy, offer_types legacy primary st' = Some [primary].
-Proof. exact bstore_offer. Qed.
